@@ -412,9 +412,18 @@ func (c *capture) GoString() string { return "capture{}" }
 func (c *capture) Parse(ctx *parseContext, parent reflect.Value) (out []reflect.Value, err error) {
 	defer ctx.printTrace(c)()
 	start := ctx.RawCursor()
+	outer := ctx.firstMatch
+	ctx.firstMatch = -1
 	v, err := c.node.Parse(ctx, parent)
 	if v != nil {
+		if ctx.firstMatch >= 0 {
+			// Elided tokens skipped on the way to the first matched token are not part of the capture.
+			start = ctx.firstMatch
+		}
 		ctx.Defer(ctx.Range(start, ctx.RawCursor()), parent, c.field, v)
+	}
+	if outer >= 0 {
+		ctx.firstMatch = outer
 	}
 	if err != nil {
 		return []reflect.Value{parent}, err
@@ -443,6 +452,7 @@ func (r *reference) Parse(ctx *parseContext, parent reflect.Value) (out []reflec
 		return nil, nil
 	}
 	ctx.FastForward(cursor)
+	ctx.Matched(cursor)
 	return []reflect.Value{reflect.ValueOf(token.Value)}, nil
 }
 
@@ -470,6 +480,7 @@ func (l *literal) Parse(ctx *parseContext, parent reflect.Value) (out []reflect.
 	token, cursor := ctx.PeekAny(match)
 	if match(token) {
 		ctx.FastForward(cursor)
+		ctx.Matched(cursor)
 		return []reflect.Value{reflect.ValueOf(token.Value)}, nil
 	}
 	return nil, nil
@@ -501,6 +512,7 @@ func (n *negation) Parse(ctx *parseContext, parent reflect.Value) (out []reflect
 
 	// Just give the next token
 	next := ctx.Next()
+	ctx.Matched(ctx.RawCursor() - 1)
 	return []reflect.Value{reflect.ValueOf(next.Value)}, nil
 }
 
